@@ -17,13 +17,13 @@ from nrfsim.core import SimAbort, stream, MS, US
 from nrfsim.harness import Result
 from nrfsim.mcu import World, random_mcu_knobs
 from checks import netref
-from checks.netcommon import Net
+from checks.netcommon import Net, net_write
 from checks.c05 import payload, BOUNDARY
 
 PROP = "C14"
 LEVEL = "exploration"
 RULE = ("seeded scenarios: populated parent-closed topology of 5..16 nodes over levels 0..4 (several per level), per-node "
-        "allow_multicast on/off, at most one relaying node (levels 1..3, sometimes 4), MCU jitter, sometimes a failed unicast (absent neighbour) right before the multicast; 1..3 multicasts from every sender class (master, "
+        "allow_multicast on/off, at most one relaying node (levels 1..3, sometimes 4), MCU jitter, sometimes a failed unicast (absent neighbour) right before the multicast, a third of the nodes constructed with another address (any level) and re-addressed before start, a relay whose slow application has 5/6 unread messages queued, bursts of 2-3 multicasts (same type or not) to applications that read late; 1..3 multicasts from every sender class (master, "
         "first child 0o1, other level-1 node, deeper levels) x target level in {default, 0..4}, lengths 0..144 (boundary "
         "biased), types 0..127. Non-trivial: the target level holds at least one other listening node; distinct = distinct "
         "abstract event sequences")
@@ -37,6 +37,7 @@ CLAUSES = {"who": "received once by every other listening node of level L that a
            "unacked": "transmitted without requesting acknowledgements; no receiver acknowledges", "relay": "re-broadcast once to the next level, still queued locally",
            "deaf": "allow_multicast off: not listening on the shared level address"}
 SHRINK_KEYS = ("casts",)
+PROBES = ["relay_queue_full", "burst_met_slow_readers", "readdressed"]
 CHUNK = 8
 MAX_INCONCLUSIVE = 0.02
 
@@ -113,11 +114,32 @@ def make(i, base_seed, tier):
         else:
             k = random_mcu_knobs(kr, stalls=False)
         nodes.append({"addr": a, "knobs": k, "allow": rng.random() < 0.8 or a == relay_node, "relay": a == relay_node})
+    xr = stream(seed, "ext")
+    for nd in nodes:
+        if xr.random() < 0.3:
+            # the node was constructed with another address (any level) and re-addressed before it started
+            lv = xr.randint(0, 4)
+            nd["first_addr"] = sum(xr.randint(1, 5) << (3 * d) for d in range(lv))
+    lazy = None
+    if relay_node is not None and netref.level(relay_node) <= 3 and xr.random() < 0.4:
+        # the relaying node's application is slow to read: 5 or 6 (= max_queue_size) unicast messages from its parent wait in
+        # its queue when the multicast arrives - the re-broadcast does not depend on the relay's own queue having room
+        lazy = {"n": xr.choice([5, 6, 6]), "seed": xr.getrandbits(20)}
+    if relay_node is None and xr.random() < 0.3:
+        # a burst of 2-3 multicasts of one sender to one level (same message type half of the time) while the applications of
+        # the receiving level are slow to read: each message is still owed to every target exactly once
+        snd = xr.choice(topo)
+        lvl = xr.choice([None, 0, 1, 2, 3, 4])
+        ty = xr.randint(0, 127)
+        same = xr.random() < 0.6
+        casts.append({"kind": "burst", "src": snd, "level": lvl, "lazy": xr.random() < 0.8,
+                      "msgs": [{"len": xr.randint(0, 24), "type": ty if same else xr.randint(0, 127), "seed": xr.getrandbits(20)}
+                               for _ in range(xr.randint(2, 3))]})
     senders = {c["src"] for c in casts if c.get("kind") != "failed_unicast"}
     for nd in nodes:
         if nd["addr"] in senders or nd["addr"] == 0:
             nd["allow"] = True   # multicast() on a node that has the feature switched off is not generated
-    return {"seed": seed, "nodes": nodes, "casts": casts, "relay_node": relay_node}
+    return {"seed": seed, "nodes": nodes, "casts": casts, "relay_node": relay_node, "lazy": lazy}
 
 
 def run(scn):
@@ -139,12 +161,15 @@ def _run(scn, w, net, res):
     allow = {}
     for nd in scn["nodes"]:
         def setup(node, nd=nd):
+            if nd.get("first_addr") is not None:
+                node.node_address = nd["addr"]
+                sim.count("readdressed")
             if not nd["allow"]:
                 node.allow_multicast = False
                 node.node_address = node.node_address   # documented: affects pipe 0 when setting the node_address
             if nd["relay"]:
                 node.multicast_relay = True
-        net.add(nd["addr"], "net", nd["addr"], knobs=nd["knobs"], setup=setup)
+        net.add(nd["addr"], "net", nd["addr"] if nd.get("first_addr") is None else nd["first_addr"], knobs=nd["knobs"], setup=setup)
         allow[nd["addr"]] = nd["allow"]
     # ---- deaf (registers)
     for a, nc in net.nodes.items():
@@ -158,6 +183,18 @@ def _run(scn, w, net, res):
     sim.advance(3 * MS)
     relay_node = scn.get("relay_node")
     addrs = set(net.nodes)
+    lazy = scn.get("lazy")
+    relay_full = False
+    prefill = set()
+    if lazy and relay_node in addrs and netref.parent(relay_node) in addrs:
+        R = net.nodes[relay_node]
+        R.no_read = True
+        for q in range(lazy["n"]):
+            prefill.add((relay_node, netref.parent(relay_node), 20 + q, payload(lazy["seed"] + q, 1 + q)))
+            net.call(netref.parent(relay_node), "write", lambda node, q=q: net_write(node, relay_node, 20 + q, payload(lazy["seed"] + q, 1 + q)), timeout=5000 * MS)
+        net.wait_quiet(quiet=5 * MS, timeout=2000 * MS)
+        relay_full = len(R.node.queue) >= R.node.queue.max_queue_size
+        sim.count("relay_queue_full" if relay_full else "relay_queue_nearly_full")
     for m in scn["casts"]:
         if m["src"] not in addrs:
             continue
@@ -167,6 +204,11 @@ def _run(scn, w, net, res):
                 return node.write(RF24NetworkFrame(RF24NetworkHeader(m["dst"], m["type"]), payload(m["seed"], m["len"])))
             net.call(m["src"], "write", fail, timeout=5000 * MS)
             net.wait_quiet(quiet=5 * MS, timeout=2000 * MS)
+            continue
+        if m.get("kind") == "burst":
+            _burst(m, w, net, res, allow, addrs)
+            if res.violations:
+                break
             continue
         src = m["src"]
         L = netref.level(src) if m["level"] is None else m["level"]
@@ -179,7 +221,12 @@ def _run(scn, w, net, res):
             res.add("who", {"kind": "multicast_raised_or_hung", "exc": type(c.exc).__name__}, "multicast() %s: %r" % ("raised" if c.done else "did not return", c.exc))
             return
         net.wait_quiet(quiet=12 * MS, timeout=3000 * MS)
-        new = {k: [e for e in nc.log[marks[k]:]] for k, nc in net.nodes.items()}
+        if lazy and relay_node in addrs and net.nodes[relay_node].no_read:
+            # the slow application finally reads (after the multicast was handled by its network layer)
+            R = net.nodes[relay_node]
+            R.no_read = False
+            net.call(relay_node, "read_all", lambda node: None, timeout=1000 * MS)
+        new = {k: [e for e in nc.log[marks[k]:] if (k, e[1], e[3], e[4]) not in prefill] for k, nc in net.nodes.items()}
         targets = {a for a in addrs if netref.level(a) == L and allow[a] and a != src}
         if targets:
             res.nontrivial = True
@@ -196,6 +243,8 @@ def _run(scn, w, net, res):
                 res.add("who", dict(sig, kind="garbled"), "node %o dequeued %r, multicast was from %o type %d %d bytes"
                         % (k, [(oct(e[1]), e[3], len(e[4])) for e in other], src, m["type"], m["len"]))
             if k in targets:
+                if k == relay_node and relay_full:
+                    continue   # a full queue cannot take the frame (bounded queue, C12); the re-broadcast is still owed
                 if len(match) != 1:
                     res.add("who", dict(sig, kind="missed" if not match else "duplicate"),
                             "node %o (level %d, allows multicast) dequeued the multicast from %o to level %d %d times (multicast() returned %r)"
@@ -219,7 +268,7 @@ def _run(scn, w, net, res):
             want_addr = netref.pipe_address(netref.lvl_addr(L + 1), 0)
             tx = [t for t in w.air.trace[a0:] if t["src"] == "n%s" % relay_node and not t["ack"]]
             mine = [e for e in new[relay_node] if (e[1], e[3], e[4]) == (src, m["type"], data)]
-            if len(mine) != 1:
+            if len(mine) != 1 and not relay_full:
                 res.add("relay", dict(sig, kind="relay_did_not_queue"), "relaying node %o dequeued the frame %d times" % (relay_node, len(mine)))
             if len(tx) != 1:
                 res.add("relay", dict(sig, kind="relay_count"), "relaying node %o put %d packets on the air (expected exactly one re-broadcast)" % (relay_node, len(tx)))
@@ -233,8 +282,56 @@ def _run(scn, w, net, res):
             res.add("who", {"kind": "update_raised", "exc": type(e).__name__}, "update() on node %o raised %r\n%s" % (k, e, tb))
     res.sample = {"topology": [oct(nd["addr"]) for nd in scn["nodes"]], "deaf": [oct(nd["addr"]) for nd in scn["nodes"] if not nd["allow"]],
                   "relay": oct(relay_node) if relay_node is not None else None,
-                  "casts": [(oct(m["src"]), m.get("kind", "multicast"), m.get("level"), m["len"], m["type"]) for m in scn["casts"]]}
+                  "casts": [(oct(m["src"]), m.get("kind", "multicast"), m.get("level"), m.get("len"), m.get("type")) for m in scn["casts"]]}
+
+
+def _burst(m, w, net, res, allow, addrs):
+    sim = w.sim
+    src = m["src"]
+    L = netref.level(src) if m["level"] is None else m["level"]
+    targets = {a for a in addrs if netref.level(a) == L and allow[a] and a != src}
+    msgs = [(x["type"], payload(x["seed"], x["len"])) for x in m["msgs"]]
+    if len(set(msgs)) != len(msgs):
+        return
+    marks = {k: len(nc.log) for k, nc in net.nodes.items()}
+    if m["lazy"]:
+        for k in targets:
+            net.nodes[k].no_read = True
+
+    def go(node):
+        return [node.multicast(d, t, m["level"]) for (t, d) in msgs]
+    c = net.call(src, "multicast_burst", go, timeout=5000 * MS)
+    if not c.done or c.exc is not None:
+        res.add("who", {"kind": "multicast_raised_or_hung", "exc": type(c.exc).__name__}, "multicast() %s: %r" % ("raised" if c.done else "did not return", c.exc))
+        return
+    net.wait_quiet(quiet=12 * MS, timeout=3000 * MS)
+    if m["lazy"]:
+        for k in sorted(targets):
+            net.nodes[k].no_read = False
+            net.call(k, "read_all", lambda node: None, timeout=1000 * MS)
+        sim.count("burst_met_slow_readers")
+    if targets:
+        res.nontrivial = True
+    sig = {"sender_class": "master" if src == 0 else ("first_child" if src == 0o1 else "level%d" % netref.level(src)), "level": L,
+           "own_level": L == netref.level(src), "explicit": m["level"] is not None, "frag": False, "burst": True,
+           "same_type": len({t for t, _ in msgs}) == 1, "slow_readers": bool(m["lazy"])}
+    for k, nc in net.nodes.items():
+        got = [(e[1], e[3], e[4]) for e in nc.log[marks[k]:]]
+        for (t, d) in msgs:
+            n = got.count((src, t, d))
+            if k in targets and n != 1:
+                res.add("who", dict(sig, kind="missed" if n == 0 else "duplicate"),
+                        "node %o (level %d, allows multicast) dequeued message %d of a burst of %d multicasts from %o to level %d %d times (multicast() returned %r)"
+                        % (k, netref.level(k), msgs.index((t, d)) + 1, len(msgs), src, L, n, c.result))
+            elif k not in targets and n:
+                res.add("who" if allow.get(k, True) else "deaf", dict(sig, kind="wrong_receiver", is_sender=k == src),
+                        "node %o (level %d, allow_multicast %s) dequeued a multicast sent by %o to level %d" % (k, netref.level(k), allow[k], src, L))
+        other = [g for g in got if (g[0], g[1], g[2]) not in [(src, t, d) for (t, d) in msgs]]
+        if other:
+            res.add("who", dict(sig, kind="garbled"), "node %o dequeued %r" % (k, [(oct(g[0]), g[1], len(g[2])) for g in other]))
 
 
 def same_class(a, b):
-    return (a.get("kind"), a.get("sender_class"), a.get("own_level"), a.get("level") == 4) == (b.get("kind"), b.get("sender_class"), b.get("own_level"), b.get("level") == 4)
+    def key(x):
+        return (x.get("kind"), x.get("sender_class"), x.get("own_level"), x.get("level") == 4, x.get("burst"), x.get("same_type"), x.get("slow_readers"))
+    return key(a) == key(b)
